@@ -54,7 +54,13 @@ CIRQ_MODEL = {
     "cirq.ZPowGate": ("ZPOW", "exponent"),        # diag(1, exp(i*pi*t)) when global_shift = 0
     "cirq.XXPowGate": ("XXPOW", "exponent"),      # exp(i*pi*t*s) * (XX)^t ; with global_shift s=-1/2: exp(-i*pi*t/2 * XX)
     "cirq.measure": ("MEASURE", None),
+    # fixed-arity controlled symbols (exactly one control, or two for CCX/CCZ): right for that many controls only
+    "cirq.CSWAP": ("CSWAP1", None), "cirq.FREDKIN": ("CSWAP1", None), "cirq.CZ": ("CZ1", None), "cirq.CX": ("CNOT", None),
+    "cirq.CCX": ("CCX2", None), "cirq.TOFFOLI": ("CCX2", None), "cirq.CCZ": ("CCZ2", None),
 }
+# a fixed-arity controlled symbol is an acceptable image of the controlled name (the controls rule K5 then demands a refusal of
+# other control counts)
+CIRQ_ALSO_OK = {"CSWAP": {"CSWAP1"}, "CZ": {"CZ1"}, "CX": {"CNOT"}}
 # Tangelo name -> (semantic class expected in the table, controlled through .controlled())
 CIRQ_EXPECT = {
     "H": "H", "X": "X", "Y": "Y", "Z": "Z", "S": "S", "T": "T", "CH": "H", "CX": "X", "CY": "Y", "CZ": "Z",
@@ -99,6 +105,8 @@ def run(idx: Index, rep: Report, tier: str):
     check_sympy_table_and_matrices(idx, rep, dispatches["sympy"])
     check_bit_order(idx, rep)
     check_idle_and_initial_state(idx, rep, dispatches["cirq"])
+    from ..rules.chunks import check_chunk_sum
+    check_chunk_sum(rep, "K9.shot-conservation", idx.function(f"{BACKEND}::Backend._statevector_to_frequencies"), "self.n_shots")
 
 
 def _sev(rep: Report, fmt: str):
@@ -350,7 +358,7 @@ def check_cirq_units(idx: Index, rep: Report, d: tr.Dispatch):
         if want == "ZPOW(-1/2)":
             ok = cls == "ZPOW" and sp.nsimplify(kw.get("exponent", 0)) == sp.Rational(-1, 2) and not kw.get("global_shift")
         else:
-            ok = cls == want and not kw
+            ok = (cls == want or cls in CIRQ_ALSO_OK.get(name, ())) and not kw
         rep.decide(ok, rule, tf, tf.node, text=f"cirq table: {name} -> {sym}{kw if kw else ''}",
                    what=f"{name} is mapped to a cirq symbol denoting {want}", reason=f"{name} mapped to {sym}{kw if kw else ''}, which denotes {cls}")
     rep.floor("cirq table rows checked", n, 24)
